@@ -1108,6 +1108,7 @@ func iterGrid(fam string, bindLevels, addrs []string) *grid {
 
 func main() {
 	coresim.GlobalSetup()
+	defer os.RemoveAll(coresim.Dir()) // every (worker) process has its own fixture directory
 	S := func(s string) []string { return strings.Split(s, " ") }
 	omitted := ""
 	pairQ := pairGrid("p", S("AA AB"), S("role class group root"), []string{omitted, "ipc"}, []string{omitted, "shmem"}, []string{omitted, "g1"},
